@@ -1,4 +1,5 @@
 import XvcRepo.NoLoss
+import XvcRepo.Fault
 /-!
   # C03 — No xvc command destroys workspace data it has not saved
 
@@ -152,6 +153,109 @@ theorem C03_move_refuses_uncached (c : Cfg) (o : CopyOpts) (s : St) (src dst : P
   repeat' split
   all_goals first | rfl | simp_all
 
+/-! ## a file that cannot be moved to the cache, a version that is not in the cache -/
+
+/-- a `move_to_cache` that fails has changed nothing -/
+theorem moveToCache_failed_unchanged (s : St) (p : Path) (a : Addr) (h : (s.moveToCache p a).2 ≠ .ok) :
+    (s.moveToCache p a).1 = s := by
+  unfold St.moveToCache St.deref at *
+  cases hw : s.ws p with
+  | none => simp [hw]
+  | some en =>
+    cases en with
+    | file b w st l => simp [hw, St.setWs] at h
+    | sym a' =>
+      cases hc : s.cache a' with
+      | none => simp [hw, hc]
+      | some o => simp [hw, hc, St.setWs, St.tick, upd] at h
+
+/-- **C03_failed_move_keeps_file**: when the file at `p` cannot be moved to the cache (no object at the
+    address, `move_to_cache` fails — for any reason), the per-file closure of `carry_in` — used by
+    `track` and by `carry-in`, with or without `--force` — ends with that failure, never with `ok`, and the
+    repository is exactly what it was: the workspace file is still there (the closure does not reach its
+    `if target_path.exists() { remove_file }`). -/
+theorem C03_failed_move_keeps_file (s : St) (p : Path) (a : Addr) (m : Method) (force : Bool)
+    (hc : s.cache a = none) (hf : (s.moveToCache p a).2 ≠ .ok) :
+    s.carryOne p a m force = (s, (s.moveToCache p a).2) ∧ (s.carryOne p a m force).2 ≠ .ok ∧
+    (s.carryOne p a m force).1.ws p = s.ws p := by
+  have hl : s.linksTo p a = false := by simp [St.linksTo, hc]
+  have h1 := moveToCache_failed_unchanged s p a hf
+  have key : s.carryOne p a m force = (s, (s.moveToCache p a).2) := by
+    unfold St.carryOne St.carryOneMove
+    simp only [hl, hc, Option.isSome_none, Bool.false_eq_true, if_false]
+    generalize hres : s.moveToCache p a = res at hf h1 ⊢
+    obtain ⟨s1, o1⟩ := res
+    simp only at hf h1 ⊢
+    subst h1
+    cases o1 with
+    | ok => exact absurd rfl hf
+    | refused => rfl
+    | panic => rfl
+  refine ⟨key, ?_, ?_⟩
+  · rw [key]; exact hf
+  · rw [key]
+
+/-- **C03_blocked_command_not_ok**: the exit class the tie compares under the fault "nothing can be moved
+    to the addresses of the digests `hs`": a command that would store an object at such an address does not
+    end with `ok`, and the model keeps the state (`St.stepBlocked`); a command that stores nothing there
+    behaves as without the fault. -/
+theorem C03_blocked_command_not_ok (c : Cfg) (hs : List Bytes) (s : St) (cmd : Cmd) :
+    (s.storesAt (s.step c cmd).1 hs = true → s.stepBlocked c hs cmd = (s, .panic)) ∧
+    (s.storesAt (s.step c cmd).1 hs = false → s.stepBlocked c hs cmd = s.step c cmd) := by
+  constructor <;> intro h <;> simp [St.stepBlocked, h]
+
+/-- **C03_recheck_without_object_keeps_file**: `recheck` of a tracked path whose recorded version is NOT
+    in the cache (after `track --no-commit`, `remove --from-cache`, a `track` killed before its rename
+    into the cache) touches neither the workspace nor the cache — for every requested method, with and
+    without `--force`: whatever is at the path stays there ("cannot found in cache"). -/
+theorem C03_recheck_without_object_keeps_file (c : Cfg) (m : Option Method) (force : Bool) (s : St) (p : Path)
+    (e : Ent) (r : Rec) (hno : ∀ d, r.cur = some d → s.cache (addrOf p d) = none) :
+    (s.recheckRec c m force p e r).1.ws = s.ws ∧ (s.recheckRec c m force p e r).1.cache = s.cache ∧
+    (s.recheckRec c m force p e r).2 ≠ .ok ∨ (s.recheckRec c m force p e r).1 = s := by
+  unfold St.recheckRec
+  simp only
+  split
+  · right; rfl
+  · cases hcur : r.cur with
+    | none => right; rfl
+    | some d =>
+      left
+      have := hno d hcur
+      simp [St.setRec, this]
+
+/-- the same for the command on one target: the workspace and the cache are what they were -/
+theorem C03_recheck_command_without_object_keeps_file (c : Cfg) (m : Option Method) (force : Bool) (s : St) (p : Path)
+    (hno : ∀ e r d, s.findEnt p = some e → s.recs e = some r → r.cur = some d → s.cache (addrOf p d) = none) :
+    (s.recheckOne c m force p).1.ws = s.ws ∧ (s.recheckOne c m force p).1.cache = s.cache := by
+  unfold St.recheckOne
+  cases hfe : s.findEnt p with
+  | none => exact ⟨rfl, rfl⟩
+  | some e =>
+    cases hre : s.recs e with
+    | none => simp [hre]
+    | some r =>
+      simp only [hre]
+      rcases C03_recheck_without_object_keeps_file c m force s p e r (fun d hd => hno e r d hfe hre hd) with h | h
+      · exact ⟨h.1, h.2.1⟩
+      · rw [h]; exact ⟨rfl, rfl⟩
+
+/-- non-vacuity: a file recorded with `--no-commit` is in the workspace, its version is not in the cache;
+    `recheck --recheck-method symlink` and `recheck --force` leave the file alone -/
+theorem C03_recheck_without_object_witness :
+    let s := ((St.init.userWrite ⟨0, 1⟩ [104]).track {} { noCommit := true } [⟨0, 1⟩]).1
+    (s.recheck {} (some .symlink) false [⟨0, 1⟩]).1.ws ⟨0, 1⟩ = s.ws ⟨0, 1⟩ ∧
+    (s.recheck {} none true [⟨0, 1⟩]).1.ws ⟨0, 1⟩ = s.ws ⟨0, 1⟩ ∧ (s.ws ⟨0, 1⟩).isSome = true ∧
+    (s.findEnt ⟨0, 1⟩).isSome = true := by
+  decide
+
+/-- non-vacuity of `C03_failed_move_keeps_file`: a move that fails in the model (the path is a dangling link) -/
+example : ∃ (s : St) (p : Path) (a : Addr), s.cache a = none ∧ (s.moveToCache p a).2 ≠ .ok :=
+  ⟨St.init.setWs ⟨0, 1⟩ (some (.sym ⟨⟨0, [1]⟩, 1⟩)), ⟨0, 1⟩, ⟨⟨0, [2]⟩, 1⟩, by decide, by decide⟩
+
+/-- non-vacuity of `C03_blocked_command_not_ok`: tracking a new file stores an object at its digest -/
+example : (St.init.userWrite ⟨0, 1⟩ [104]).storesAt (((St.init.userWrite ⟨0, 1⟩ [104]).step {} (.track [⟨0, 1⟩] {})).1)
+    (blockedHashes [[104]]) = true := by decide
+
 /-! ## whole commands, any number of targets -/
 
 /-- xvc commands that are not allowed to destroy anything: everything except `remove`, `untrack` and
@@ -292,3 +396,13 @@ open Repo in
 #print axioms C03_script_no_loss
 open Repo in
 #print axioms C03_crlf_loss_counterexample
+open Repo in
+#print axioms C03_failed_move_keeps_file
+open Repo in
+#print axioms C03_blocked_command_not_ok
+open Repo in
+#print axioms C03_recheck_without_object_keeps_file
+open Repo in
+#print axioms C03_recheck_command_without_object_keeps_file
+open Repo in
+#print axioms C03_recheck_without_object_witness
